@@ -156,28 +156,48 @@ def fill_device(dev, d):
         dev.memory_array[:] = bytes.fromhex(d['fill']) * (size // max(1, len(d['fill']) // 2))
 
 
+class ConstructionMismatch(RuntimeError):
+    """the library did not build the memory its configuration file declares"""
+
+
+PENDING = {}          # id(ArmV6) -> set-up still to be done (core specs with 'defer_setup': the constructor has run, nothing else has)
+
+
 def new_arm(core_spec, lines=None):
     """core_spec: {'config': overrides, 'devices': [...], 'regs': state, 'reset': bool}"""
     from . import solo as _solo
     _solo.constructed[0] += 1
     arm = ArmV6(config_path(core_spec.get('config')))
-    taken = set()
-    for d in core_spec.get('devices', []):
-        if d.get('in_config'):
-            # declared in the configuration file's memory_list: the library has built the controller itself; only the contents are loaded
-            for i, mc in enumerate(arm.mem.memories):
-                if i not in taken and mc.beginning == d['begin'] and mc.end == d['end']:
-                    taken.add(i)
-                    fill_device(mc.mem, d)
-                    break
-            else:
-                raise RuntimeError('memory_list entry [%#x, %#x) was not constructed by the library' % (d['begin'], d['end']))
-            continue
-        arm.mem.memories.append(MemoryController(make_device(d, lines), d['begin'], d['end']))
-    if core_spec.get('reset', True):
-        arm.take_reset()
-    load_state(arm, core_spec.get('regs') or {})
+
+    def setup():
+        taken = set()
+        for d in core_spec.get('devices', []):
+            if d.get('in_config'):
+                # declared in the configuration file's memory_list: the library has built the controller itself; only the contents are loaded
+                for i, mc in enumerate(arm.mem.memories):
+                    if i not in taken and mc.beginning == d['begin'] and mc.end == d['end']:
+                        taken.add(i)
+                        fill_device(mc.mem, d)
+                        break
+                else:
+                    raise ConstructionMismatch('memory_list entry [%#x, %#x) was not constructed by the library' % (d['begin'], d['end']))
+                continue
+            arm.mem.memories.append(MemoryController(make_device(d, lines), d['begin'], d['end']))
+        if core_spec.get('reset', True):
+            arm.take_reset()
+        load_state(arm, core_spec.get('regs') or {})
+    if core_spec.get('defer_setup'):
+        # the bench constructs its processors first and loads them later (finish(), called by the board before the instance's first tick)
+        PENDING[id(arm)] = (arm, setup)
+    else:
+        setup()
     return arm
+
+
+def finish(arm):
+    p = PENDING.pop(id(arm), None)
+    if p is not None:
+        p[1]()
 
 
 def device_at(arm, begin):
